@@ -12,6 +12,8 @@
 //!                  actors is a deterministic function of the case. History of
 //!                  (client, op, reply, inv, res) from one logical clock; per key a Wing–Gong/Lowe
 //!                  search against a sequential string-register model. Violation = no linearization.
+//!                  ~7 % of the steps are cancelled in flight (future polled 0-3 times, then dropped);
+//!                  a cancelled write is an op without response the search may place later or omit.
 //!   conn_clients   the same programs through concurrent connection handlers (hook) sharing one
 //!                  ShardedActorState; each client talks over an in-memory duplex stream
 //!   stress         (thorough) 8–16 clients on a multi-thread runtime; the replay artefact is the
@@ -215,7 +217,22 @@ struct OpSpec {
     pick: u16,
     /// number of `yield_now` before the step (the schedule)
     yields: u8,
+    /// request cancellation: `Some((polls, gap))` = start the op, poll its future at most `polls`
+    /// times with `gap` yields between two polls, and DROP it if it has not completed by then
+    /// (conn_clients: write the command, then cut the connection without reading the reply)
+    #[serde(default)]
+    cancel: Option<(u8, u8)>,
 }
+
+/// one resolved client step
+#[derive(Clone, Debug)]
+struct PStep {
+    yields: u8,
+    cancel: Option<(u8, u8)>,
+    op: ROp,
+}
+
+type Prog = Vec<PStep>;
 
 #[derive(Clone, Debug, Serialize, Deserialize)]
 struct Case {
@@ -288,7 +305,7 @@ const RMW_SCRIPT: &[u8] = b"local v = redis.call('GET', KEYS[1]); if not v then 
 
 /// Resolve a client's program. `coerce(k)` = the fast-family router may not be used for key k
 /// (only while the routing finding is open); returns the number of coerced ops.
-fn resolve(case: &Case, c: usize, coerce: &dyn Fn(usize) -> bool, coerced: &mut u64) -> Vec<(u8, ROp)> {
+fn resolve(case: &Case, c: usize, coerce: &dyn Fn(usize) -> bool, coerced: &mut u64) -> Prog {
     let nk = case.keys.len();
     let written = written_values(case);
     let all: Vec<usize> = (0..nk).collect();
@@ -335,7 +352,7 @@ fn resolve(case: &Case, c: usize, coerce: &dyn Fn(usize) -> bool, coerced: &mut 
             Kind::BatchSet => ROp::BatchSet { kvs: all.iter().map(|&kk| (kk, multi_value(c, i, kk))).collect() },
             Kind::MSet => ROp::MSet { kvs: all.iter().map(|&kk| (kk, multi_value(c, i, kk))).collect() },
         };
-        out.push((op.yields, r));
+        out.push(PStep { yields: op.yields, cancel: op.cancel, op: r });
     }
     out
 }
@@ -470,20 +487,72 @@ impl Recorder {
     fn record(&self, client: usize, inv: u64, res: u64, out: Vec<(usize, MOp, Reply)>) {
         let mut h = self.hist.lock().unwrap();
         for (key, op, reply) in out {
-            h.push(Entry { client, key, op, reply, inv, res });
+            h.push(Entry { client, key, op, reply, inv, res, pending: false });
+        }
+    }
+    /// a request cancelled in flight: its writes may take effect at any later instant, or never
+    fn record_cancelled(&self, client: usize, inv: u64, op: &ROp) {
+        let mut h = self.hist.lock().unwrap();
+        for (key, op) in pending_writes(op) {
+            h.push(Entry { client, key, op, reply: Reply::Nil, inv, res: u64::MAX, pending: true });
         }
     }
 }
 
-async fn api_client(c: usize, prog: Vec<(u8, ROp)>, st: State, keys: Arc<Vec<Vec<u8>>>, rec: Arc<Recorder>) -> Result<(), String> {
-    for (yields, op) in prog {
+/// per-key write projections of an op whose reply is unknown (reads project to nothing)
+fn pending_writes(op: &ROp) -> Vec<(usize, MOp)> {
+    match op {
+        ROp::Get { .. } | ROp::BatchGet { .. } | ROp::MGet { .. } => vec![],
+        ROp::Set { k, v, .. } => vec![(*k, MOp::Set(v.clone()))],
+        ROp::Incr { k } => vec![(*k, MOp::Incr)],
+        ROp::Append { k, s } => vec![(*k, MOp::Append(s.clone()))],
+        ROp::GetSet { k, v } => vec![(*k, MOp::GetSet(v.clone()))],
+        ROp::SetNx { k, v } => vec![(*k, MOp::SetNx(v.clone()))],
+        ROp::Del { k } => vec![(*k, MOp::Del)],
+        ROp::Cas { k, expect, new } => vec![(*k, MOp::Cas { expect: expect.clone(), new: new.clone() })],
+        ROp::Rmw { k, s } => vec![(*k, MOp::Rmw(s.clone()))],
+        ROp::BatchSet { kvs } | ROp::MSet { kvs } => kvs.iter().map(|(k, v)| (*k, MOp::Set(v.clone()))).collect(),
+    }
+}
+
+/// Poll `fut` at most `polls` times (yielding `gap` times between two polls, so that the shard
+/// actor may or may not run in between); `None` = still pending after the last poll, and the
+/// future is dropped right there, i.e. the request is cancelled in flight: whatever it already
+/// sent to a shard mailbox stays there.
+async fn poll_then_drop<F: std::future::Future>(fut: F, polls: u8, gap: u8) -> Option<F::Output> {
+    let mut fut = Box::pin(fut);
+    for i in 0..polls {
+        if i > 0 {
+            for _ in 0..gap {
+                tokio::task::yield_now().await;
+            }
+        }
+        let r = std::future::poll_fn(|cx| std::task::Poll::Ready(fut.as_mut().poll(cx))).await;
+        if let std::task::Poll::Ready(v) = r {
+            return Some(v);
+        }
+    }
+    None
+}
+
+async fn api_client(c: usize, prog: Prog, st: State, keys: Arc<Vec<Vec<u8>>>, rec: Arc<Recorder>) -> Result<(), String> {
+    for PStep { yields, cancel, op } in prog {
         for _ in 0..yields {
             tokio::task::yield_now().await;
         }
         let inv = rec.stamp();
-        let out = run_op(&st, &keys, &op).await?;
-        let res = rec.stamp();
-        rec.record(c, inv, res, out);
+        let out = match cancel {
+            None => Some(run_op(&st, &keys, &op).await),
+            Some((polls, gap)) => poll_then_drop(run_op(&st, &keys, &op), polls, gap).await,
+        };
+        match out {
+            Some(out) => {
+                let out = out?;
+                let res = rec.stamp();
+                rec.record(c, inv, res, out);
+            }
+            None => rec.record_cancelled(c, inv, &op),
+        }
     }
     Ok(())
 }
@@ -535,7 +604,7 @@ async fn drive(handles: Vec<tokio::task::JoinHandle<Result<(), String>>>, rec: &
     Ok(())
 }
 
-async fn api_history(case: &Case, n: usize, progs: Vec<Vec<(u8, ROp)>>, multi_thread: bool) -> Result<Vec<Entry>, String> {
+async fn api_history(case: &Case, n: usize, progs: Vec<Prog>, multi_thread: bool) -> Result<Vec<Entry>, String> {
     let time = VerifTime::new(0);
     let st = mk_state(n, case.pool, &time);
     let keys = Arc::new(case.keys.clone());
@@ -556,22 +625,43 @@ async fn api_history(case: &Case, n: usize, progs: Vec<Vec<(u8, ROp)>>, multi_th
     Ok(h)
 }
 
-/// one client of the connection tier: writes one command, reads exactly one reply
-async fn conn_client(
-    c: usize,
-    prog: Vec<(u8, ROp)>,
-    mut io: tokio::io::DuplexStream,
-    keys: Arc<Vec<Vec<u8>>>,
-    rec: Arc<Recorder>,
-) -> Result<(), String> {
+type ProdState = ShardedActorState;
+type ServerHandles = Arc<Mutex<Vec<tokio::task::JoinHandle<()>>>>;
+
+fn connect(st: &ProdState, servers: &ServerHandles) -> tokio::io::DuplexStream {
+    let (client_end, server_end) = tokio::io::duplex(1 << 16);
+    let state = st.clone();
+    let h = tokio::spawn(async move { verif_hooks::run_connection(server_end, state, ConnectionConfig::default()).await });
+    servers.lock().unwrap().push(h);
+    client_end
+}
+
+/// one client of the connection tier: writes one command, reads exactly one reply. A cancelled
+/// step writes the command and cuts the connection without reading; the rest of the program
+/// continues on a fresh connection.
+async fn conn_client(c: usize, prog: Prog, st: ProdState, servers: ServerHandles, keys: Arc<Vec<Vec<u8>>>, rec: Arc<Recorder>) -> Result<(), String> {
+    let mut io = connect(&st, &servers);
     let mut buf: Vec<u8> = Vec::new();
     let mut tmp = [0u8; 4096];
-    for (yields, op) in prog {
+    for PStep { yields, cancel, op } in prog {
         for _ in 0..yields {
             tokio::task::yield_now().await;
         }
         let argv = argv_of(&keys, &op, true);
         let inv = rec.stamp();
+        if let Some((polls, gap)) = cancel {
+            if polls > 0 {
+                io.write_all(&encode_command(&argv)).await.map_err(|e| format!("write: {}", e))?;
+                for _ in 0..(polls - 1) * gap {
+                    tokio::task::yield_now().await;
+                }
+            }
+            drop(io);
+            buf.clear();
+            rec.record_cancelled(c, inv, &op);
+            io = connect(&st, &servers);
+            continue;
+        }
         io.write_all(&encode_command(&argv)).await.map_err(|e| format!("write: {}", e))?;
         let reply = loop {
             match decode_reply(&buf) {
@@ -598,21 +688,18 @@ async fn conn_client(
     Ok(())
 }
 
-async fn conn_history(case: &Case, n: usize, progs: Vec<Vec<(u8, ROp)>>) -> Result<Vec<Entry>, String> {
+async fn conn_history(case: &Case, n: usize, progs: Vec<Prog>) -> Result<Vec<Entry>, String> {
     let st = ShardedActorState::with_perf_config(&perf(n, case.pool));
     let keys = Arc::new(case.keys.clone());
     let rec = Recorder::new();
+    let servers: ServerHandles = Arc::new(Mutex::new(Vec::new()));
     let mut clients = Vec::new();
-    let mut servers = Vec::new();
     for (c, prog) in progs.into_iter().enumerate() {
-        let (client_end, server_end) = tokio::io::duplex(1 << 16);
-        let cfg = ConnectionConfig::default();
-        let state = st.clone();
-        servers.push(tokio::spawn(async move { verif_hooks::run_connection(server_end, state, cfg).await }));
-        clients.push(tokio::spawn(conn_client(c, prog, client_end, keys.clone(), rec.clone())));
+        clients.push(tokio::spawn(conn_client(c, prog, st.clone(), servers.clone(), keys.clone(), rec.clone())));
     }
     drive(clients, &rec, false).await?;
-    for (c, h) in servers.into_iter().enumerate() {
+    let handles: Vec<_> = std::mem::take(&mut *servers.lock().unwrap());
+    for (c, h) in handles.into_iter().enumerate() {
         if let Err(e) = h.await {
             return Err(format!("connection handler {} failed: {}", c, e));
         }
@@ -644,7 +731,7 @@ fn has_rw_overlap(h: &[Entry]) -> bool {
             continue;
         }
         for y in h {
-            if y.key == x.key && y.client != x.client && y.client != usize::MAX && y.op.is_write() && x.inv < y.res && y.inv < x.res {
+            if y.key == x.key && y.client != x.client && y.client != usize::MAX && !y.pending && y.op.is_write() && x.inv < y.res && y.inv < x.res {
                 return true;
             }
         }
@@ -689,18 +776,24 @@ fn check_case(case: &Case, mode: Mode, session: &Session, ctx: &mut CaseCtx<'_>)
         let split: Vec<bool> = case.keys.iter().map(|k| kf_open && r.split(k, n)).collect();
         let coerce = |k: usize| split[k];
         let mut coerced = 0u64;
-        let progs: Vec<Vec<(u8, ROp)>> = (0..case.clients.len()).map(|c| resolve(case, c, &coerce, &mut coerced)).collect();
+        let progs: Vec<Prog> = (0..case.clients.len()).map(|c| resolve(case, c, &coerce, &mut coerced)).collect();
         for _ in 0..coerced {
             ctx.tolerate(KF_HASH);
         }
         if coerced > 0 {
             ctx.label("ops_coerced_to_generic");
         }
-        let mixes_paths = progs.iter().flatten().any(|(_, op)| {
-            matches!(op, ROp::Get { path, .. } | ROp::Set { path, .. } if *path != Path::Generic)
-                || matches!(op, ROp::BatchGet { .. } | ROp::BatchSet { .. })
+        let mixes_paths = progs.iter().flatten().any(|st| {
+            matches!(&st.op, ROp::Get { path, .. } | ROp::Set { path, .. } if *path != Path::Generic)
+                || matches!(&st.op, ROp::BatchGet { .. } | ROp::BatchSet { .. })
         });
-        let run = |progs: Vec<Vec<(u8, ROp)>>| -> Result<Vec<Entry>, String> {
+        let cancels = progs.iter().flatten().filter(|st| st.cancel.is_some()).count();
+        let pooled_cancels = progs
+            .iter()
+            .flatten()
+            .filter(|st| st.cancel.is_some() && matches!(&st.op, ROp::Get { path: Path::Pooled, .. } | ROp::Set { path: Path::Pooled, .. }))
+            .count();
+        let run = |progs: Vec<Prog>| -> Result<Vec<Entry>, String> {
             match mode {
                 Mode::Sched => vcore::block_on(api_history(case, n, progs, false)),
                 Mode::Conn => vcore::block_on(conn_history(case, n, progs)),
@@ -757,6 +850,15 @@ fn check_case(case: &Case, mode: Mode, session: &Session, ctx: &mut CaseCtx<'_>)
         if mixes_paths {
             ctx.label(if n > 1 { "fast_family_paths_used(n>1)" } else { "fast_family_paths_used(n=1)" });
         }
+        if cancels > 0 {
+            ctx.label("request_cancelled");
+        }
+        if pooled_cancels > 0 {
+            ctx.label("pooled_request_cancelled");
+        }
+        if h.iter().any(|e| e.pending) {
+            ctx.label("history_has_op_without_response");
+        }
         if has_rw_overlap(&h) {
             nontrivial = true;
             ctx.label("rw_overlap");
@@ -798,8 +900,15 @@ fn op_spec() -> BoxedStrategy<OpSpec> {
         1 => Just(Kind::MSet),
     ];
     let yields = prop_oneof![5 => Just(0u8), 4 => 1u8..4, 1 => 4u8..12];
-    (kind, any::<u8>(), any::<bool>(), any::<u16>(), yields)
-        .prop_map(|(kind, key, numeric, pick, yields)| OpSpec { kind, key, numeric, pick, yields })
+    // request cancellation (≈ 7 % of the steps): polls before the drop 0 (never sent), 1 (sent,
+    // dropped before the actor can run), 2-3 with 0-2 yields between polls (gap 0: still dropped
+    // in flight; gap > 0: the actor usually answers first and the op completes normally)
+    let cancel = prop_oneof![
+        13 => Just(None),
+        1 => (prop_oneof![1 => Just(0u8), 5 => Just(1u8), 2 => Just(2u8), 1 => Just(3u8)], 0u8..3).prop_map(Some),
+    ];
+    (kind, any::<u8>(), any::<bool>(), any::<u16>(), yields, cancel)
+        .prop_map(|(kind, key, numeric, pick, yields, cancel)| OpSpec { kind, key, numeric, pick, yields, cancel })
         .boxed()
 }
 
@@ -815,11 +924,14 @@ fn case_strategy(clients: std::ops::RangeInclusive<usize>, ops: std::ops::RangeI
         }
         out
     });
+    // tiny pools make a recycled slot come back within a few requests
     let pool = prop_oneof![
         3 => Just((256usize, 64usize)),
-        2 => Just((1usize, 1usize)),
+        3 => Just((1usize, 1usize)),
         2 => Just((2usize, 1usize)),
         1 => Just((2usize, 0usize)),
+        2 => Just((3usize, 3usize)),
+        1 => Just((3usize, 1usize)),
     ];
     (
         keys,
@@ -842,7 +954,12 @@ struct HistCase {
 }
 
 fn e(client: usize, op: MOp, reply: Reply, inv: u64, res: u64) -> Entry {
-    Entry { client, key: 0, op, reply, inv, res }
+    Entry { client, key: 0, op, reply, inv, res, pending: false }
+}
+
+/// an op without response (request cancelled in flight)
+fn pend(client: usize, op: MOp, inv: u64) -> Entry {
+    Entry { client, key: 0, op, reply: Reply::Nil, inv, res: u64::MAX, pending: true }
 }
 
 fn hand_histories() -> Vec<HistCase> {
@@ -971,6 +1088,83 @@ fn hand_histories() -> Vec<HistCase> {
         vec![e(0, MOp::Set(v("a")), ok(), 1, 2), e(1, MOp::Get, b("other-key-value"), 3, 4)],
     );
     add("error reply where the model has a value", false, vec![e(0, MOp::Get, Reply::Error(b"ERR shard unavailable".to_vec()), 1, 2)]);
+    // ---- ops without response (request cancelled in flight): optional, any time after inv
+    add("only a cancelled write", true, vec![pend(0, MOp::Set(v("a")), 1)]);
+    add("cancelled SET took effect", true, vec![pend(0, MOp::Set(v("a")), 1), e(1, MOp::Get, b("a"), 2, 3)]);
+    add("cancelled SET never took effect", true, vec![pend(0, MOp::Set(v("a")), 1), e(1, MOp::Get, Reply::Nil, 2, 3), e(1, MOp::Get, Reply::Nil, 4, 5)]);
+    add(
+        "cancelled SET took effect late (after a read that missed it)",
+        true,
+        vec![pend(0, MOp::Set(v("a")), 1), e(1, MOp::Get, Reply::Nil, 2, 3), e(1, MOp::Get, b("a"), 4, 5)],
+    );
+    add(
+        "cancelled SET seen, then gone again without any other write",
+        false,
+        vec![pend(0, MOp::Set(v("a")), 1), e(1, MOp::Get, b("a"), 2, 3), e(1, MOp::Get, Reply::Nil, 4, 5)],
+    );
+    add(
+        "cancelled SET observed before it was invoked",
+        false,
+        vec![e(1, MOp::Get, b("a"), 1, 2), pend(0, MOp::Set(v("a")), 5)],
+    );
+    add(
+        "cancelled SET may be ordered after a later completed SET",
+        true,
+        vec![pend(0, MOp::Set(v("a")), 1), e(1, MOp::Set(v("b")), ok(), 2, 3), e(2, MOp::Get, b("a"), 4, 5)],
+    );
+    add(
+        "cancelled SET may be ordered before a later completed SET",
+        true,
+        vec![pend(0, MOp::Set(v("a")), 1), e(1, MOp::Set(v("b")), ok(), 2, 3), e(2, MOp::Get, b("b"), 4, 5), e(2, MOp::Get, b("b"), 6, 7)],
+    );
+    add(
+        "cancelled SET applied twice (a, b, a again)",
+        false,
+        vec![
+            pend(0, MOp::Set(v("a")), 1),
+            e(2, MOp::Get, b("a"), 2, 3),
+            e(1, MOp::Set(v("b")), ok(), 4, 5),
+            e(2, MOp::Get, b("b"), 6, 7),
+            e(2, MOp::Get, b("a"), 8, 9),
+        ],
+    );
+    add("cancelled INCR applied once", true, vec![pend(0, MOp::Incr, 1), e(1, MOp::Get, b("1"), 2, 3), e(1, MOp::Incr, Reply::Int(2), 4, 5)]);
+    add("cancelled INCR applied twice", false, vec![pend(0, MOp::Incr, 1), e(1, MOp::Get, b("2"), 2, 3)]);
+    add(
+        "cancelled DEL: value, then gone",
+        true,
+        vec![e(0, MOp::Set(v("a")), ok(), 1, 2), pend(1, MOp::Del, 3), e(2, MOp::Get, b("a"), 4, 5), e(2, MOp::Get, Reply::Nil, 6, 7)],
+    );
+    add(
+        "cancelled DEL: gone, then back without a write",
+        false,
+        vec![e(0, MOp::Set(v("a")), ok(), 1, 2), pend(1, MOp::Del, 3), e(2, MOp::Get, Reply::Nil, 4, 5), e(2, MOp::Get, b("a"), 6, 7)],
+    );
+    add(
+        "two cancelled writes and a CAS that needs one of them",
+        true,
+        vec![
+            pend(0, MOp::Set(v("a")), 1),
+            pend(1, MOp::Append(v("+x")), 2),
+            e(2, MOp::Cas { expect: v("a"), new: v("c") }, Reply::Int(1), 3, 4),
+            e(2, MOp::Get, b("c+x"), 5, 6),
+        ],
+    );
+    add(
+        "stale reply from a recycled slot: SET answered with the value a cancelled GET fetched",
+        false,
+        vec![e(0, MOp::Set(v("a")), ok(), 1, 2), e(1, MOp::Set(v("b")), b("a"), 5, 6)],
+    );
+    add(
+        "stale reply from a recycled slot: GET answered with +OK",
+        false,
+        vec![e(0, MOp::Set(v("a")), ok(), 1, 2), e(1, MOp::Get, Reply::ok(), 3, 4)],
+    );
+    add(
+        "stale read long after an acknowledged SET (reply shifted by one in the pool)",
+        false,
+        vec![e(0, MOp::Set(v("a")), ok(), 1, 2), pend(9, MOp::Set(v("z")), 3), e(0, MOp::Set(v("b")), ok(), 4, 5), e(0, MOp::Get, b("a"), 6, 7)],
+    );
     out
 }
 
@@ -980,6 +1174,10 @@ struct SeqCase {
     widen: Vec<(u8, u8)>,
     /// index selector of the GET to corrupt
     corrupt: u16,
+    /// per op: 1 = the write was cancelled in flight but took effect (no response),
+    /// 2 = cancelled and never took effect (no response, not applied); else answered
+    #[serde(default)]
+    lost: Vec<u8>,
 }
 
 fn seq_op(kind: u8, val: u8, i: usize) -> MOp {
@@ -1004,16 +1202,23 @@ fn check_seq(case: &SeqCase, ctx: &mut CaseCtx<'_>) -> Result<(), String> {
     for (i, (kind, val)) in case.ops.iter().enumerate() {
         let op = seq_op(*kind, *val, i);
         let (reply, next) = spec(&state, &op);
-        state = next;
         let t = 100 * (i as u64 + 1);
-        hist.push(Entry { client: i % 4, key: 0, op, reply, inv: t, res: t + 1 });
+        let lost = if op.is_write() { case.lost.get(i).copied().unwrap_or(0) } else { 0 };
+        if lost != 2 {
+            state = next;
+        }
+        if lost == 1 || lost == 2 {
+            hist.push(Entry { client: i % 4, key: 0, op, reply: Reply::Nil, inv: t, res: u64::MAX, pending: true });
+        } else {
+            hist.push(Entry { client: i % 4, key: 0, op, reply, inv: t, res: t + 1, pending: false });
+        }
     }
     // widening intervals keeps the sequential order admissible
     let mut wide = hist.clone();
     for (i, en) in wide.iter_mut().enumerate() {
         let (l, r) = case.widen.get(i).copied().unwrap_or((0, 0));
         en.inv = en.inv.saturating_sub(l as u64 * 7);
-        en.res += r as u64 * 7;
+        en.res = en.res.saturating_add(r as u64 * 7);
     }
     match check_key(&wide, &None, SEARCH_BUDGET) {
         Verdict::Linearizable => {}
@@ -1078,8 +1283,8 @@ fn main() {
                 keys: vec![b"k0".to_vec()],
                 pool: (256, 64),
                 clients: vec![vec![
-                    OpSpec { kind: Kind::Set(Path::Fast), key: 0, numeric: false, pick: 0, yields: 0 },
-                    OpSpec { kind: Kind::Get(Path::Generic), key: 0, numeric: false, pick: 0, yields: 0 },
+                    OpSpec { kind: Kind::Set(Path::Fast), key: 0, numeric: false, pick: 0, yields: 0, cancel: None },
+                    OpSpec { kind: Kind::Get(Path::Generic), key: 0, numeric: false, pick: 0, yields: 0, cancel: None },
                 ]],
             };
             s.strict_eval(|ctx| check_case(&case, Mode::Sched, &s, ctx)).err()
@@ -1107,7 +1312,7 @@ fn main() {
         }
         Ok(())
     });
-    s.describe_check("checker_seq", "every sequential history (intervals widened) accepted; one read of a never-written value rejected");
+    s.describe_check("checker_seq", "every sequential history (intervals widened; some writes turned into ops without response that did or did not take effect) accepted; one read of a never-written value rejected");
     s.run_cases(
         "checker_seq",
         s.scale(20_000, 400_000),
@@ -1116,8 +1321,9 @@ fn main() {
                 proptest::collection::vec((any::<u8>(), any::<u8>()), 1..40),
                 proptest::collection::vec((0u8..40, 0u8..40), 0..40),
                 any::<u16>(),
+                proptest::collection::vec(prop_oneof![6 => Just(0u8), 1 => Just(1u8), 1 => Just(2u8)], 0..40),
             )
-                .prop_map(|(ops, widen, corrupt)| SeqCase { ops, widen, corrupt })
+                .prop_map(|(ops, widen, corrupt, lost)| SeqCase { ops, widen, corrupt, lost })
         },
         check_seq,
     );
